@@ -108,10 +108,10 @@ class CSummary(object):
                     return val
             return [(True, rd.get('name', '?'))]
         if k == 'MemberExpr':
-            return [(g, '%s%s%s' % (t, '->' if n.get('isArrow') else '.', n.get('name'))) for g, t in self.alts(C.kids(n)[0], pc)]
+            return [(g, member_text(t, n.get('isArrow'), n.get('name'))) for g, t in self.alts(C.kids(n)[0], pc)]
         if k == 'ArraySubscriptExpr':
             ch = C.kids(n)
-            return self.combine([ch[0], ch[1]], pc, lambda a, b: '%s[%s]' % (a, b))
+            return self.combine([ch[0], ch[1]], pc, lambda a, b: '%s[%s]' % (wrap_postfix(a), b))
         if k == 'UnaryOperator':
             op = n.get('opcode')
             sub = C.kids(n)[0]
@@ -239,21 +239,23 @@ class CSummary(object):
         if f is not None and f.get('variadic'):
             can = False
         if not can:
-            arg_alts = [self.alts(a, pc) for a in args]
             # a local whose address is handed to an opaque callee may be overwritten by it
             for a in args:
-                s = C.strip(a)
-                if s.get('kind') == 'UnaryOperator' and s.get('opcode') == '&':
-                    t = C.strip(C.kids(s)[0])
+                s_ = C.strip(a)
+                if s_.get('kind') == 'UnaryOperator' and s_.get('opcode') == '&':
+                    t = C.strip(C.kids(s_)[0])
                     if t.get('kind') == 'DeclRefExpr' and t.get('referencedDecl', {}).get('id') in self.env:
-                        self.tmp += 1
                         rd = t['referencedDecl']
                         self.env[rd['id']] = [(True, rd.get('name'))]
-            texts = [a[0][1] if len(a) == 1 else '|'.join(sorted(set(t for g, t in a))) for a in arg_alts]
             cname = name or self.text1(C.kids(n)[0], pc)
-            val = '%s(%s)' % (cname, ','.join(texts))
-            self.emit('call', cname, val, pc, n, fr, args=texts)
-            return [(True, val)]
+            out = []
+            combos = self.combine(list(args), pc, lambda *ts: '\x00'.join(ts)) if args else [(True, '')]
+            for g, joined in combos:
+                texts = joined.split('\x00') if args else []
+                val = '%s(%s)' % (cname, ','.join(texts))
+                self.emit('call', cname, val, conj(pc, g), n, fr, args=texts)
+                out.append((g, val))
+            return out
         # inline
         self.inlined.add(name)
         params = self.tu.params(f)
@@ -322,10 +324,10 @@ class CSummary(object):
                     out.append((g, '*%s' % wrap(t), None))
             return out
         if k == 'MemberExpr':
-            return [(g, '%s%s%s' % (t, '->' if l.get('isArrow') else '.', l.get('name')), None) for g, t in self.alts(C.kids(l)[0], pc)]
+            return [(g, member_text(t, l.get('isArrow'), l.get('name')), None) for g, t in self.alts(C.kids(l)[0], pc)]
         if k == 'ArraySubscriptExpr':
             ch = C.kids(l)
-            return [(g, t, None) for g, t in self.combine([ch[0], ch[1]], pc, lambda a, b: '%s[%s]' % (a, b))]
+            return [(g, t, None) for g, t in self.combine([ch[0], ch[1]], pc, lambda a, b: '%s[%s]' % (wrap_postfix(a), b))]
         return [(g, t, None) for g, t in self.alts(l, pc)]
 
     _carried = ()
@@ -429,6 +431,7 @@ class CSummary(object):
             label = n.get('targetLabelDeclId')
             fr.pending[label] = disj(fr.pending.get(label, False), pc)
             self.emit('goto', fr.name, str(label), pc, n, fr)
+            fr.exits.append((pc, 'goto'))
             return False
         if k == 'LabelStmt':
             inc = fr.pending.pop(n.get('declId'), False)
@@ -606,6 +609,19 @@ def wrap(t):
     return t
 
 
+def member_text(base, arrow, name):
+    if arrow and base.startswith('&') and not base.startswith('&&'):
+        return '%s.%s' % (wrap_postfix(base[1:]), name)       # (&x)->f  ==  x.f
+    return '%s%s%s' % (wrap_postfix(base), '->' if arrow else '.', name)
+
+
+def wrap_postfix(t):
+    """operand of a postfix operator (->, ., []): a unary-prefixed or binary expression needs parentheses"""
+    if t[:1] in '&*-!~' or (t.startswith('(') and not _balanced(t[1:-1])):
+        return '(%s)' % t if not (t.startswith('(') and t.endswith(')') and _balanced(t[1:-1])) else t
+    return wrap(t)
+
+
 _NULLS = ('0', '((void*)0)', 'NULL', "'\\0'", '0L', '0U', '0UL')
 
 
@@ -616,6 +632,8 @@ def truth_atom(t):
         return True
     if t.startswith('!'):
         return neg(truth_atom(unwrap(t[1:])))
+    if t.startswith('&') and not t.startswith('&&'):
+        return True          # the address of an object is never NULL
     return atom(t)
 
 
